@@ -105,6 +105,10 @@ class Shim(object):
         self.inside = False
         self.fds = {}                      # fd -> (path, writable)
         self.crash_before = plan.get('crash_before')
+        # a catchable interrupt (SIGINT as Python sees it: KeyboardInterrupt
+        # raised when the interrupted system call returns / before the next)
+        self.interrupt_after = plan.get('interrupt_after')
+        self.interrupt_before = plan.get('interrupt_before')
         self.faults = dict((int(k), v) for k, v in
                            (plan.get('faults') or {}).items())
         self.pfaults = plan.get('pfaults') or []
@@ -271,6 +275,11 @@ class Shim(object):
             self.log_json('X', {'k': k, 'why': 'crash', 'op': name,
                                 'p': paths})
             os._exit(EXIT_CRASH)
+        if self.interrupt_before == k:
+            self.interrupt_before = None
+            self.log_json('X', {'k': k, 'why': 'interrupt-before', 'op': name,
+                                'p': paths})
+            raise KeyboardInterrupt()
         if self.sched is not None:
             self._yield(name, cls, paths)
         if self.delay_us and cls == 'M':
@@ -314,6 +323,7 @@ class Shim(object):
             err = self._pfault(name, cls, kind, paths, a, kw)
         if err is not None:
             self.log_json('A', {'k': k, 'r': 'F', 'e': err})
+            self._int_skip(k, name)
             if len(paths) > 1:
                 raise _oserror(err, a[0] if a else paths[0],
                                a[1] if len(a) > 1 else paths[1])
@@ -326,6 +336,7 @@ class Shim(object):
             verr = self._vmount_error(name, kind, paths)
             if verr is not None:
                 self.log_json('A', {'k': k, 'r': 'V', 'e': verr})
+                self._int_skip(k, name)
                 if len(paths) > 1:
                     raise _oserror(verr, a[0], a[1])
                 raise _oserror(verr, a[0])
@@ -339,12 +350,25 @@ class Shim(object):
             r = orig(*a, **kw)
         except OSError as e:
             self.log_json('A', {'k': k, 'r': 'E', 'e': e.errno})
+            self._int_skip(k, name)
             raise
         except BaseException as e:
             self.log_json('A', {'k': k, 'r': 'EX', 'e': type(e).__name__})
             raise
         self.log_json('A', {'k': k, 'r': 'ok'})
-        return self._post(name, r, a, kw, paths, cls)
+        r = self._post(name, r, a, kw, paths, cls)
+        if self.interrupt_after == k:
+            self.interrupt_after = None
+            self.log_json('X', {'k': k, 'why': 'interrupt-after', 'op': name,
+                                'p': paths})
+            raise KeyboardInterrupt()
+        return r
+
+    def _int_skip(self, k, name):
+        if self.interrupt_after == k:
+            # the call itself failed: the OSError is what Python raises
+            self.interrupt_after = None
+            self.log_json('X', {'k': k, 'why': 'interrupt-skipped', 'op': name})
 
     def _post(self, name, r, a, kw, paths, cls):
         if name == 'open' and isinstance(r, int):
